@@ -43,5 +43,7 @@ SEEDED = [
     ("C12-9", "C12-DECOMP"),
     ("C12-10", "C12-XML"),
     ("C12-11", "C12-DECOMP"),
+    ("C12-12", "C12-DECOMP"),
+    ("C12-13", "C12-EMPTY"),
 ]
 MUTANTS = list(MUTANTS) + [_P("seed-" + sid, _os.path.join(_SEEDS, sid, "patch.diff"), rule) for sid, rule in SEEDED if _os.path.exists(_os.path.join(_SEEDS, sid, "patch.diff"))]
